@@ -159,6 +159,8 @@ def check(config, events, live=None, nticks=None, identity=True):
                 P = "C02" if cg is None else "C11"
                 got = sorted(e["id"] for e in dets)
                 if got != sorted(r.det_ids):
+                    if st.suspended is not None:
+                        P = "C06"  # "while a chain is suspended ... its detectors keep running each tick"
                     bad(P, "detector-once", "", "tick %d ruleset %s cg %s: detectors run %s, configured %s" % (ti, r.name, cg, got, sorted(r.det_ids)), st)
                     continue
                 # ---- instance identity (C11)
